@@ -278,8 +278,8 @@ def step (s : S) (line : String) : S × String :=
           | some .einval => "einval" | some _ => "edivzero" | none => "ok"
         let avgBad := unalignedVisited rws vis
         let z := fbits 0.0
-        -- Average{Id,Match} in the sampling branch on unaligned input is not driven (the C code leaks its generator there)
-        let skip := n > 1 && !exhaustive n maxc && unalignedVisited rws (allPairs n)
+        -- Average{Id,Match} in the sampling branch on unaligned input: eslEINVAL, output 0, as in the exhaustive branch (640fa96)
+        let skip := false
         let avgid := if skip then "skip" else if avgBad then s!"einval:{z}" else s!"ok:{fbits (averageId (α := Float) s.m rws maxc sampled)}"
         let avgm := if skip then "skip" else if avgBad then s!"einval:{z}" else s!"ok:{fbits (averageMatch (α := Float) s.m rws maxc sampled)}"
         let conn := if s.mode == 0 then "-" else if avgBad then s!"einval:{z}:{z}" else
